@@ -259,6 +259,7 @@ impl Borrow<[u8]> for Atom<'_> {
 }
 
 #[derive(Debug)]
+#[cfg_attr(feature = "verif-hooks", derive(Clone))]
 pub struct Allocator {
     // this is effectively a grow-only stack where atoms are allocated. Atoms
     // are immutable, so once they are created, they will stay around until the
@@ -352,6 +353,37 @@ pub fn len_for_value(val: u32) -> usize {
         4
     } else {
         5
+    }
+}
+
+#[cfg(feature = "verif-hooks")]
+impl Allocator {
+    /// complete internal state, for state de-duplication and "unchanged on
+    /// failure" checks in the verification harness
+    #[allow(clippy::type_complexity)]
+    pub fn verif_fingerprint(&self) -> (Vec<u8>, Vec<(u32, u32)>, Vec<(u32, u32)>, [usize; 4]) {
+        fn raw(n: NodePtr) -> u32 {
+            ((n.object_type() as u32) << NODE_PTR_IDX_BITS) | n.index()
+        }
+        (
+            self.u8_vec.clone(),
+            self.atom_vec.iter().map(|a| (a.start, a.end)).collect(),
+            self.pair_vec
+                .iter()
+                .map(|p| (raw(p.first), raw(p.rest)))
+                .collect(),
+            [
+                self.ghost_atoms,
+                self.ghost_pairs,
+                self.ghost_heap,
+                self.heap_limit,
+            ],
+        )
+    }
+
+    /// cheap clone that does not carry over the large capacity reservations
+    pub fn verif_fork(&self) -> Self {
+        self.clone()
     }
 }
 
